@@ -234,6 +234,42 @@ def bounded_shape(R, N, seed, limit):
     return dict(evaluations=ev, classes=sorted(classes), failures=failures, samples=samples, exhaustive=total <= limit)
 
 
+def bounded_dependent(seed, n):
+    """rank-deficient consistent systems with inexact quotients: 3 equations whose third row is a small integer combination of the first two, entries
+    in {-3..3} or half-integers, given as native ints / floats (a rounding residue in the row that should vanish must not count as an equation)"""
+    import random
+    from g3dvc.engine import load_repo
+    load_repo()
+    rng = random.Random(seed * 31 + 16)
+    ev = 0
+    classes = set()
+    failures = []
+    samples = []
+    frees = [(1, 1, 1), (2, -3, Fraction(1, 2))]
+    for it in range(n):
+        N = rng.choice((2, 3))
+        half = it % 2 == 1
+        val = lambda: (rng.randint(-4, 4) / 2.0) if half else rng.randint(-3, 3)
+        r1, r2 = [val() for _ in range(N + 1)], [val() for _ in range(N + 1)]
+        a, b = rng.randint(-3, 3), rng.randint(-3, 3)
+        r3 = [a * x + b * y for x, y in zip(r1, r2)]
+        rows = [r1, r2, r3]
+        rng.shuffle(rows)
+        m = [list(r) for r in rows]
+        if half:
+            m = [[float(x) for x in r] for r in m]
+        ev += 1
+        A = [r[:N] for r in m]
+        klass = "dependent 3x%d %s rank%d/%d" % (N, "half-integers" if half else "{-3..3}", _rank(A), _rank(m))
+        classes.add(klass)
+        f = check_matrix(m, frees)
+        if f and len(failures) < 5 and klass not in [x["class"] for x in failures]:
+            failures.append(dict(case=dict(matrix=m), what=f, **{"class": klass}))
+        if len(samples) < 2 and ev % 97 == 5:
+            samples.append(dict(matrix=m, klass=klass))
+    return dict(evaluations=ev, classes=sorted(classes), failures=failures, samples=samples)
+
+
 def replay_case(case):
     from g3dvc.engine import load_repo
     load_repo()
@@ -244,4 +280,5 @@ def replay_case(case):
 def bounded(tier, seed):
     lim = 20000 if tier == "quick" else 400000
     shapes = [(1, 2), (1, 3), (2, 2), (2, 3), (3, 2), (3, 3)]
-    return [("matrices{-2..2}[%dx%d]" % (R, N), bounded_shape, (R, N, seed, lim), 900) for R, N in shapes]
+    return [("matrices{-2..2}[%dx%d]" % (R, N), bounded_shape, (R, N, seed, lim), 900) for R, N in shapes] + [
+        ("dependent rows with inexact quotients ({-3..3}, half-integers; native ints / floats)", bounded_dependent, (seed, 20000 if tier == "quick" else 400000), 900)]
